@@ -24,7 +24,7 @@ def main():
         alarms = {}
         env = dict(ENV, PSA_REPO=tmp)
         for pid in ids:
-            rc, out = sh("/verif/bin/psa check %s --no-evidence" % pid, cwd="/verif", env=env)
+            rc, out = sh(os.environ.get("PSA_BIN", "/verif/bin/psa") + " check %s --no-evidence" % pid, cwd="/verif", env=env)
             if rc != 0:
                 lines = [l[:300] for l in out.splitlines() if re.match(r"^\S*: [A-Z0-9@-]+ \[", l)]
                 alarms[pid] = lines or ["exit %d: %s" % (rc, out[-300:])]
